@@ -119,7 +119,7 @@ package definition
 //@   ensures err == nil ==> context.htlcToken == store(old(context.htlcToken), h.Id, h.TokenStandard) && context.htlcExp == store(old(context.htlcExp), h.Id, h.ExpirationTime) && context.htlcHashType == store(old(context.htlcHashType), h.Id, h.HashType) && context.htlcKeyMax == store(old(context.htlcKeyMax), h.Id, h.KeyMaxSize) && context.htlcLockLen == store(old(context.htlcLockLen), h.Id, len(h.HashLock))
 //@   ensures err == nil ==> (forall i arr :: i != h.Id ==> context.htlcLockByte[i] == old(context.htlcLockByte[i])) && (forall j int :: 0 <= j && j < len(h.HashLock) ==> context.htlcLockByte[h.Id][j] == h.HashLock[j])
 //@   ensures err != nil ==> context.htlcHas == old(context.htlcHas) && context.htlcAmt == old(context.htlcAmt)
-//@   modifies MF:common/db.DB.htlc
+//@   modifies MF:common/db.DB.htlc*
 
 //@ func HtlcInfo.Delete(h, context) -> (err)
 //@   trusted
@@ -186,7 +186,7 @@ package definition
 //@   requires pillar != nil && pillar.Amount != nil
 //@   ensures err == nil ==> context.pillarHas == store(old(context.pillarHas), pillar.Name, true) && context.pillarOwner == store(old(context.pillarOwner), pillar.Name, pillar.StakeAddress) && context.pillarAmt == store(old(context.pillarAmt), pillar.Name, val(pillar.Amount)) && context.pillarReg == store(old(context.pillarReg), pillar.Name, pillar.RegistrationTime) && context.pillarRevoked == store(old(context.pillarRevoked), pillar.Name, pillar.RevokeTime)
 //@   ensures err != nil ==> context.pillarHas == old(context.pillarHas) && context.pillarOwner == old(context.pillarOwner) && context.pillarAmt == old(context.pillarAmt) && context.pillarReg == old(context.pillarReg) && context.pillarRevoked == old(context.pillarRevoked)
-//@   modifies MF:common/db.DB.pillar
+//@   modifies MF:common/db.DB.pillar*
 
 // ---- sentinel contract: owner -> (ZNN collateral, QSR collateral, registration time, revoke time) ------------------------------
 //@ model github.com/zenon-network/go-zenon/common/db:DB sentinelHas map[arr]bool
@@ -207,4 +207,17 @@ package definition
 //@   requires sentinel != nil && sentinel.ZnnAmount != nil && sentinel.QsrAmount != nil
 //@   ensures context.sentinelHas == store(old(context.sentinelHas), sentinel.SentinelInfoKey.Owner, true) && context.sentinelZnn == store(old(context.sentinelZnn), sentinel.SentinelInfoKey.Owner, val(sentinel.ZnnAmount)) && context.sentinelQsr == store(old(context.sentinelQsr), sentinel.SentinelInfoKey.Owner, val(sentinel.QsrAmount))
 //@   ensures context.sentinelReg == store(old(context.sentinelReg), sentinel.SentinelInfoKey.Owner, sentinel.RegistrationTimestamp) && context.sentinelRevoked == store(old(context.sentinelRevoked), sentinel.SentinelInfoKey.Owner, sentinel.RevokeTimestamp)
-//@   modifies MF:common/db.DB.sentinel
+//@   modifies MF:common/db.DB.sentinel*
+
+// Producing-address index and pillar list of the pillar contract: other records of the same storage, not part of the
+// collateral accounting; ASSUMED to leave the pillar entries alone.
+//@ func GetProducingPillarName(context, address) -> (pp, err)
+//@   trusted
+//@   ensures err == nil ==> pp != nil
+//@   modifies nothing
+//@ func ProducingPillar.Save(ppName, context) -> (err)
+//@   trusted
+//@   modifies nothing
+//@ func GetPillarsList(context, onlyActive, pillarType) -> (list, err)
+//@   trusted
+//@   modifies nothing
